@@ -4,7 +4,7 @@
    also what is extracted and run against the real C++. *)
 From Coq Require Import ZArith List Bool.
 From MomoCommon Require Import GenPrelude.
-From C17 Require Gen_Leaves Leaves_Proofs SorterSearch SorterSort Search_Proofs Find_Proofs IsSorted_Proofs Sort_Proofs Checker Instance.
+From C17 Require Gen_Leaves Leaves_Proofs SorterSearch SorterSort Search_Proofs Find_Proofs IsSorted_Proofs Sort_Proofs Radix_Proofs Checker Instance.
 Import ListNotations.
 Local Open Scope Z_scope.
 
@@ -143,18 +143,31 @@ Theorem C17_selection_sort_perm_sorted : forall eqf grp l p cnt, Instance.equiva
 Proof. exact Instance.SelectionSort_perm_sorted. Qed.
 Print Assumptions C17_selection_sort_perm_sorted.
 
-(* HashSorter::Sort / SortPrehashed (RadixSorter<8>, 64-bit codes) on at most 32 items (the selection-sort range):
-   terminates, output = permutation of the (hash,item) pairs (hash array permuted identically) and IsSorted holds on it. *)
-Theorem C17_hashsort_small_output_satisfies_is_sorted : forall eqf l, Instance.equivalence eqf -> SorterSort.alen l <= 32 ->
+(* RadixSorter<R>::Sort for EVERY radix size R >= 1 (1..16 in the source), EVERY code width W, with HashSorter's group
+   callback (g = true) or the empty one, on every array of W-bit codes: the model run is total (fuel suffices, no swap outside
+   the array, MOMO_ASSERT(shift > 0) never fires, the cycle-leader loop always finds room in the target bucket), the output
+   is a permutation of the input and codes are non-decreasing; with grouping equal items are contiguous inside code runs.
+   The recursion lemma covers shifts that are not multiples of the radix size (final partial digit: nextShift = 0). *)
+Theorem C17_radix_sort_perm_sorted : forall eqf R g W l, Instance.equivalence eqf -> 1 <= R -> 0 <= W ->
+  Instance.codes_below W l ->
+  exists l', SorterSort.RadixSortG SorterSort.swap eqf R g W l = Ok l' /\ Permutation.Permutation l l' /\
+    SorterSort.alen l' = SorterSort.alen l /\ Sort_Proofs.sortedR l' 0 (SorterSort.alen l') /\
+    (g = true -> Sort_Proofs.groupedR eqf l' 0 (SorterSort.alen l')).
+Proof. exact Instance.RadixSort_perm_sorted. Qed.
+Print Assumptions C17_radix_sort_perm_sorted.
+
+(* HashSorter::Sort / SortPrehashed (RadixSorter<8>, 64-bit hash codes) at EVERY size: terminates, the output is a
+   permutation of the (hash,item) pairs (hash array permuted identically) and IsSorted -- the function characterised by
+   C17_is_sorted_iff -- returns true on it. *)
+Theorem C17_hashsort_output_satisfies_is_sorted : forall eqf l, Instance.equivalence eqf -> Instance.codes_below 64 l ->
   exists l', Instance.HashSort eqf l = Ok l' /\ Permutation.Permutation l l' /\
     Instance.IsSorted (SorterSort.alen l') (SorterSort.code l') (SorterSort.itm l') eqf = Ok true.
-Proof. exact Instance.HashSort_small_output_satisfies_is_sorted. Qed.
-Print Assumptions C17_hashsort_small_output_satisfies_is_sorted.
+Proof. exact Instance.HashSort_output_satisfies_is_sorted. Qed.
+Print Assumptions C17_hashsort_output_satisfies_is_sorted.
 
-(* PARTIAL: the complete pvSort/pvRadixSort recursion (counting pass, prefix sums, cycle-leader permutation, recursion on
-   shift, singleCode/singleRadix shortcuts, group callbacks) for every radix size R and code width W: IF the model run
-   returns Ok THEN the output is a permutation of the input.  Totality and sortedness of the radix path are not proved. *)
-Theorem C17_radix_sort_perm_partial : forall eqf R g W l l',
-  SorterSort.RadixSortG SorterSort.swap eqf R g W l = Ok l' -> Permutation.Permutation l l' /\ SorterSort.alen l' = SorterSort.alen l.
-Proof. exact Instance.RadixSort_perm_partial. Qed.
-Print Assumptions C17_radix_sort_perm_partial.
+(* non-vacuity: a radix-path run whose shifts (5, 2, 0 for R = 3, W = 8) are not multiples of the radix size *)
+Theorem C17_radix_partial_digit_example :
+  SorterSort.RadixSortG SorterSort.swap Z.eqb 3 true 8 [(201, 1); (7, 2); (201, 3); (64, 4); (201, 1); (6, 5); (255, 6)]
+  = Ok [(6, 5); (7, 2); (64, 4); (201, 1); (201, 1); (201, 3); (255, 6)].
+Proof. exact Instance.ex_radix_partial_digit. Qed.
+Print Assumptions C17_radix_partial_digit_example.
